@@ -44,7 +44,7 @@ META = {
 }
 EXC = {'IndexError': 1, 'ValueError': 2, 'AssertionError': 3, 'AttributeError': 4, 'TypeError': 5,
        'KeyError': 6, 'ZeroDivisionError': 9, 'StopIteration': 101, 'OverflowError': 102}
-MODEL_TARGETS = ['Base/C11_Lib.vo', 'Gen/C11_RsaDecrypt.vo', 'Gen/C11_RsaKex.vo', 'Spec/C11_Pkcs1Dec.vo',
+MODEL_TARGETS = ['Base/C11_Lib.vo', 'Gen/C11_RsaDecrypt.vo', 'Gen/C11_RsaKex.vo', 'Gen/C11_RsaPrivOp.vo', 'Spec/C11_Pkcs1Dec.vo',
                  'Model/C11_ServerTail.vo']
 
 
@@ -299,6 +299,19 @@ Definition chk_spec (c : CaseT) : bool :=
   | Some r => opt_list_eqb (spec_decrypt (table_lookup ht) (hm2 mt) (raw_lookup rt) n d enc) r
   | None => false
   end.
+Definition PrivT := (Z * Z * Z * Z * Z * list (Z * Z) * (Z * Z * Z) * (Z * Z * Z) * (Z * Z * Z * Z) * (Z * Z * Z))%type.
+Definition chk_privop (c : PrivT) : bool :=
+  let '(n, e, b, u, m, ht, g, iv, pw, want) := c in
+  let '(g1, g2, gv) := g in let '(i1, i2, ivv) := iv in let '(p1, p2, p3, pv) := pw in
+  let '(wc, wb, wu) := want in
+  match rawPrivateKeyOp (raw_lookup ht)
+          (fun a b0 => if (a =? g1) && (b0 =? g2) then gv else -1)
+          (fun a b0 => if (a =? i1) && (b0 =? i2) then ivv else -1)
+          (fun a b0 c0 => if (a =? p1) && (b0 =? p2) && (c0 =? p3) then pv else -1)
+          n e b u m with
+  | Ok (c', (b', u')) => (c' =? wc) && (b' =? wb) && (u' =? wu)
+  | Err _ => false
+  end.
 Definition KexT := (option (list Z) * list Z * (Z * Z) * (Z * Z) * option (option (list Z)) * Z)%type.
 Definition chk_kex (c : KexT) : bool :=
   let '(r, rnd, cv, sv, impl, code) := c in
@@ -307,7 +320,7 @@ Definition chk_kex_spec (c : KexT) : bool :=
   let '(r, rnd, cv, sv, impl, code) := c in
   match impl with Some (Some x) => list_eqb (kex_spec cv sv r rnd) x | _ => false end.
 '''
-IMPORTS = ['Base.C11_Lib', 'Gen.C11_RsaDecrypt', 'Gen.C11_RsaKex', 'Spec.C11_Pkcs1Dec', 'Model.C11_ServerTail']
+IMPORTS = ['Base.C11_Lib', 'Gen.C11_RsaDecrypt', 'Gen.C11_RsaKex', 'Gen.C11_RsaPrivOp', 'Spec.C11_Pkcs1Dec', 'Model.C11_ServerTail']
 
 
 # --------------------------------------------------------------------------- decrypt cases
@@ -512,6 +525,132 @@ def helper_cases(ctx, quick):
     return lits, meta
 
 
+# --------------------------------------------------------------------------- private operation (translation validation)
+def privop_cases(ctx, quick):
+    """real Python_RSAKey._rawPrivateKeyOp with recorded oracles, cold (first pass) and warm"""
+    import tlslite.utils.python_rsakey as prk
+    import c11_conc
+    lits, meta = [], []
+    for name in ([88, 512, 'pem'] if quick else [88, 96, 512, 1024, 1096, 'pem', 3072]):
+        key = c11_conc.fresh_key(get_key(name))
+        n, e = int(key.n), int(key.e)
+        for step in range(3):
+            m = ctx.rng.randrange(0, n)
+            rec = {'h': [], 'g': (-2, -2, -2), 'i': (-2, -2, -2), 'p': (-2, -2, -2, -2)}
+            orig = (prk.getRandomNumber, prk.invMod, prk.powMod)
+
+            def grn(a, b):
+                v = orig[0](a, b)
+                rec['g'] = (int(a), int(b), int(v))
+                return v
+
+            def inv(a, b):
+                v = orig[1](a, b)
+                rec['i'] = (int(a), int(b), int(v))
+                return v
+
+            def pw(a, b, c):
+                v = orig[2](a, b, c)
+                rec['p'] = (int(a), int(b), int(c), int(v))
+                return v
+
+            def helper(x, _k=key):
+                v = type(_k)._rawPrivateKeyOpHelper(_k, x)
+                rec['h'].append((int(x), int(v)))
+                return v
+            b0, u0 = int(key.blinder), int(key.unblinder)
+            prk.getRandomNumber, prk.invMod, prk.powMod = grn, inv, pw
+            key._rawPrivateKeyOpHelper = helper
+            try:
+                c = int(key._rawPrivateKeyOp(m))
+            finally:
+                prk.getRandomNumber, prk.invMod, prk.powMod = orig
+                del key._rawPrivateKeyOpHelper
+            h = hexlit
+            lits.append('(%s, %s, %s, %s, %s, [%s], (%s,%s,%s), (%s,%s,%s), (%s,%s,%s,%s), (%s,%s,%s))' % (
+                h(n), h(e), h(b0), h(u0), h(m), ';'.join('(%s,%s)' % (h(a), h(b)) for a, b in rec['h']),
+                h(rec['g'][0]), h(rec['g'][1]), h(rec['g'][2]), h(rec['i'][0]), h(rec['i'][1]), h(rec['i'][2]),
+                h(rec['p'][0]), h(rec['p'][1]), h(rec['p'][2]), h(rec['p'][3]),
+                h(c), h(int(key.blinder)), h(int(key.unblinder))))
+            meta.append((name, 'cold' if b0 == 0 else 'warm'))
+            # the property of the operation itself: c = m^d mod n
+            if c != pow(m, int(key.d), n):
+                ctx.violation('privop-wrong-result', '_rawPrivateKeyOp(%d) != m^d mod n for key %s' % (m, name),
+                              dict(kind='privop', rsa_key=str(name), m=m))
+    return lits, meta
+
+
+# --------------------------------------------------------------------------- determinism under concurrency
+def conc_stage(ctx, quick):
+    """Forced interleavings of 2-3 decrypt() calls on one key object.  Returns True if a violation was reported."""
+    import c11_conc
+    rng = ctx.rng
+    found = False
+    for name in ([512, 'pem'] if quick else [96, 512, 1096, 'pem', 2048]):
+        key = get_key(name)
+        n, d, k = int(key.n), int(key.d), kbytes(key.n)
+        msgs = {'A': b'thread-A ' + bytes(rng.randrange(256) for _ in range(8)),
+                'B': b'thread-B ' + bytes(rng.randrange(256) for _ in range(20)),
+                'C': b'C' + bytes(rng.randrange(256) for _ in range(3))}
+        cts = {t: enc_em(key, pkcs(rng, k, m)) for t, m in msgs.items()}
+        bad_em = b'\x00\x02' + nz(rng, k - 2)                       # no separator
+        probe_valid = enc_em(key, pkcs(rng, k, b'probe ' + bytes(rng.randrange(256) for _ in range(10))))
+        probe_msg = o_unpad(pow(int.from_bytes(probe_valid, 'big'), d, n).to_bytes(k, 'big'))
+        probe_invalid = enc_em(key, bad_em)
+        probes = [probe_valid, probe_invalid]
+        want_probes = [probe_msg, o_decrypt(n, d, probe_invalid, bad_em)]
+        three = (name == 512) or not quick
+        for warm in (True, False):
+            pts = c11_conc.access_points(key, cts['A'], warm, probe_valid)
+            ctx.count('decrypt-concurrent-forced-schedules', 1, [(name, warm, 'access-points', len(pts))])
+            plans = []
+            for (_t, i, kind, field) in pts:
+                plans.append(({'A': (i, 'B')}, ('A', 'B'), '%s-%s' % (kind, field)))
+                if three:
+                    for j in (0, 2, 3, 4):
+                        plans.append(({'A': (i, 'B'), 'B': (j, 'C')}, ('A', 'B', 'C'), '%s-%s' % (kind, field)))
+            for triggers, names, where in plans:
+                sub = {t: cts[t] for t in names}
+                # B sometimes decrypts the invalid ciphertext: its synthetic message must not change either
+                expect = {t: msgs[t] for t in names}
+                if len(names) == 2 and rng.random() < 0.3:
+                    sub['B'] = probe_invalid
+                    expect['B'] = want_probes[1]
+                out = c11_conc.run_schedule(key, sub, triggers, warm, probes)
+                ctx.count('decrypt-concurrent-forced-schedules', 1, [(name, warm, where, len(names))])
+                wrong = [(t, out['res'].get(t)) for t in names if t in out['res'] and out['res'][t] != expect[t]]
+                wrong_p = [(i, r) for i, (r, w) in enumerate(zip(out['probe_res'], want_probes)) if r != w]
+                if wrong or wrong_p:
+                    found = True
+                    fmt = lambda x: x.hex() if isinstance(x, (bytes, bytearray)) else repr(x)
+                    what = ('decrypt is not a function of key and ciphertext under concurrency (key %s, blinding %s): '
+                            'with the schedule "after thread A\'s access #%d to the blinding pair (%s) run thread B%s" '
+                            % (name, 'initialised' if warm else 'not yet initialised', triggers['A'][0], where,
+                               '' if 'B' not in triggers else ', after B\'s access #%d run thread C' % triggers['B'][0]))
+                    if wrong:
+                        what += ': ' + '; '.join('thread %s got %s instead of %s' % (t, fmt(r), fmt(expect[t])) for t, r in wrong)
+                    if wrong_p:
+                        what += '; afterwards the same key object decrypts %s to %s' % (
+                            'a valid ciphertext' if wrong_p[0][0] == 0 else 'an invalid ciphertext', fmt(wrong_p[0][1]))
+                    ctx.violation('decrypt-conc:%s' % where, what,
+                                  dict(kind='conc', rsa_key=str(name), warm=warm, triggers={t: list(v) for t, v in triggers.items()},
+                                       cts={t: c.hex() for t, c in sub.items()}, expect={t: fmt(v) for t, v in expect.items()},
+                                       probes=[p.hex() for p in probes], want_probes=[fmt(w) for w in want_probes],
+                                       schedule_log=[list(map(str, e)) for e in out['log']],
+                                       how='harness/props/C11.py replay -> c11_conc.run_schedule'))
+        # free-running threads (no forced schedule)
+        allc = [cts['A'], cts['B'], cts['C'], probe_invalid, probe_valid]
+        exp = [msgs['A'], msgs['B'], msgs['C'], want_probes[1], probe_msg]
+        bad = c11_conc.free_running(key, allc, exp, 3, 2 if quick else 6)
+        ctx.count('decrypt-concurrent-free-running', 3 * (2 if quick else 6) * len(allc), [(name, 'free')])
+        if bad:
+            found = True
+            ctx.violation('decrypt-conc:free-running', 'three free-running threads on one key object (%s): ciphertext #%d decrypts '
+                          'to %r instead of %r' % (name, bad[0][0], bad[0][1], exp[bad[0][0]]),
+                          dict(kind='conc-free', rsa_key=str(name), cts=[c.hex() for c in allc]))
+    return found
+
+
 # --------------------------------------------------------------------------- run
 def run(ctx):
     quick = ctx.tier == 'quick'
@@ -525,7 +664,7 @@ def run(ctx):
         return raw_violation(key, what, replay, found_input)
     ctx.violation = violation_once
     tie_broken = None
-    for u in ('ConstantTime', 'C11_RsaDecrypt', 'C11_RsaKex'):
+    for u in ('ConstantTime', 'C11_RsaDecrypt', 'C11_RsaKex', 'C11_RsaPrivOp'):
         ok, msg = units.generate(u, vlib.COQ)
         ctx.log('translator: %s' % msg)
         if not ok:
@@ -538,6 +677,8 @@ def run(ctx):
         'Base/C11_Lib.v: hand models of numBits, numBytes, numberToByteArray, bytesToNumber, iterator/while idioms (validated on every run)',
         'oracles: SHA-256, HMAC-SHA256 (32 output bytes), the key object\'s private operation (non-negative result), getRandomBytes',
         'RSAKey._key_hash cache is coherent with d (caching idiom translated as a let)',
+        'Python_RSAKey._rawPrivateKeyOp: state-passing model valid under the lexical lock obligation (checked every run); '
+        'hypotheses on the key: CRT helper multiplicative mod n, fresh blinding pair consistent (H-rsa-key)',
         'Spec/C11_Pkcs1Dec.v as the reading of PKCS#1 v1.5 + implicit rejection (draft-irtf-cfrg-rsa-guidance)',
         'Model/C11_ServerTail.v: hand model of the server tail with abstract cryptography, tied by live handshakes only',
     ]
@@ -623,6 +764,10 @@ def run(ctx):
                              None if c['r'] is None else len(c['r']),
                              'the decrypted value' if want == c['r'] else 'the random premaster'), rep)
     ctx.log('kex vs property oracle: %d cases' % len(kcases))
+    # determinism of decrypt when one key object is shared by threads (forced schedules)
+    if conc_stage(ctx, quick):
+        found = True
+    ctx.log('concurrency stage done')
     # ---------------- generated models and Coq spec on the same cases
     if res['model_ok'] and tie_broken is None:
         allc = cases + forced_cases
@@ -658,6 +803,13 @@ def run(ctx):
             found = True
             ctx.violation('coq-kex-spec!=impl:%s' % kcases[i]['cls'], 'Model.C11_ServerTail.kex_spec disagrees with '
                           'processClientKeyExchange (class %s)' % kcases[i]['cls'], dict(kind='kex', cls=kcases[i]['cls']))
+        pl, pm = privop_cases(ctx, quick)
+        badp, errs = vlib.coq_bad_indices('C11p', IMPORTS, 'PrivT', 'chk_privop', pl, shard=6, preamble=PREAMBLE)
+        ctx.count('privop-model-vs-impl(vm_compute)', len(pl), [m for m in pm])
+        for e in errs:
+            tie_broken = 'private-operation evaluation failed: ' + e[:400]
+        for i in badp[:3]:
+            tie_broken = 'generated rawPrivateKeyOp disagrees with Python_RSAKey._rawPrivateKeyOp (%s, %s)' % pm[i]
         hl, hm = helper_cases(ctx, quick)
         badh, errs = vlib.coq_bad_indices('C11h', IMPORTS, 'bool', '(fun b : bool => b)', hl, shard=24, preamble=PREAMBLE)
         ctx.count('lib-helpers-model-vs-impl', len(hl), [(m[0],) for m in hm])
@@ -701,6 +853,22 @@ def replay(ctx, path):
     if 'variant' in r:
         import c11_live
         return c11_live.replay_live(r)
+    if r.get('kind') == 'conc':
+        import c11_conc
+        name = r['rsa_key'] if r['rsa_key'] == 'pem' else int(r['rsa_key'])
+        key = get_key(name)
+        out = c11_conc.run_schedule(key, {t: bytes.fromhex(c) for t, c in r['cts'].items()},
+                                    {t: tuple(v) for t, v in r['triggers'].items()}, r['warm'],
+                                    [bytes.fromhex(p) for p in r['probes']])
+        fmt = lambda x: x.hex() if isinstance(x, (bytes, bytearray)) else repr(x)
+        got = {t: fmt(v) for t, v in out['res'].items()}
+        gp = [fmt(v) for v in out['probe_res']]
+        for e in out['log']:
+            print('  ', e)
+        print('results :', got)
+        print('expected:', r['expect'])
+        print('probes  :', gp, 'expected', r['want_probes'])
+        return 0 if (all(got.get(t) == v for t, v in r['expect'].items() if t in got) and gp == r['want_probes']) else 1
     if r.get('kind') == 'kex':
         c = r['case']
         c2 = dict(cls=c['cls'], r=None if c['r'] is None else bytes.fromhex(c['r']), rnd=bytes.fromhex(c['rnd']),
